@@ -332,10 +332,12 @@ func ruleLookahead(c *Ctx, r *Report) {
 	pn := c.ringLen("tokenRingBuffer", "buf")
 	if pn >= 2 {
 		pSpec := ringSpec{
-			what:    "parser token ring",
-			n:       pn,
-			isRead:  func(f *ssa.Function) bool { return recvNamed(f) == "Parser" && f.Name() == "next" && f.Parent() == nil },
-			isBack:  func(f *ssa.Function) bool { return recvNamed(f) == "Parser" && f.Name() == "backup" && f.Parent() == nil },
+			what:   "parser token ring",
+			n:      pn,
+			isRead: func(f *ssa.Function) bool { return recvNamed(f) == "Parser" && f.Name() == "next" && f.Parent() == nil },
+			isBack: func(f *ssa.Function) bool {
+				return recvNamed(f) == "Parser" && f.Name() == "backup" && f.Parent() == nil
+			},
 			inScope: func(f *ssa.Function) bool { return recvNamed(f) == "Parser" },
 			roots: func() []*ssa.Function {
 				var out []*ssa.Function
